@@ -229,6 +229,18 @@ def same_model(a, b):
     return (not hasattr(a, 'coef_')) or (np.shape(a.coef_) == np.shape(b.coef_) and np.array_equal(a.coef_, b.coef_))
 
 
+DIVERGED = 'diverged'
+
+
+def converged(g):
+    """the model's last PIRLS run reached tol (last logged diff < tol)"""
+    try:
+        d = g.logs_['diffs']
+        return len(d) > 0 and float(d[-1]) < float(g.tol)
+    except Exception:
+        return False
+
+
 def escore(x):
     x = float(x)
     if x != x:
@@ -347,15 +359,22 @@ def evaluate(res, cfg):
             h = build(cfg, ns=hp['n_splines'], so=hp['spline_order'], lam=hp['lam'])
             fit(cfg, h, X, y, expo, w)
             indep = float(h.statistics_[want_obj])
-        except ValueError:
-            indep = None
+            indep_converged = converged(h)
+        except ValueError as e:
+            # PIRLS has no step control: whether it diverges depends on the start.  A cold start (_initial_estimate) can
+            # diverge where the search's warm start converges (and vice versa: finding F_WARM).  Only a divergence of the
+            # optimiser makes the pair incomparable; a parameter-validation error means the candidate is invalid.
+            indep = DIVERGED if (type(e).__name__ == 'OptimizationError' and 'PIRLS optimization has diverged' in str(e)) else None
+            indep_converged = False
         except Exception as e:
             res.count('independent-fit-error:%s' % type(e).__name__)
             return None
         matched = pos < len(cand_models) and hyper(cand_models[pos][0]) == want
         if not matched:
             outcomes.append('None')
-            if indep is not None:
+            if indep is DIVERGED:
+                res.count('skipped-in-search-and-cold-fit-diverges')
+            elif indep is not None:
                 # a candidate that can be fitted on its own is missing from the search.  Replay what the loop does for
                 # it on a deep copy of the searched model (gam = deepcopy(self); set_params(**param_grid) one parameter
                 # at a time; warm start with the coefficients of the model fitted just before; fit) and see which of the
@@ -403,8 +422,14 @@ def evaluate(res, cfg):
         cands_coq.append(coq_list(['("%s", %s)' % (nm, coq_list([qlit(frac_of_float(v)) for v in want[nm]])) for nm in eff_names]))
         if float(sc) != float(m.statistics_[want_obj]):
             viol('returned score is not statistics_[%s] of the returned model' % want_obj, float(m.statistics_[want_obj]), float(sc))
-        if indep is None:
+        if indep is DIVERGED:
+            # in-search fit produced finite statistics, the cold reference diverged: not comparable, not a violation
+            res.count('cold-fit-diverged-not-comparable' if np.isfinite(float(sc)) else 'cold-fit-diverged-and-search-score-not-finite')
+        elif indep is None:
             viol('gridsearch fitted a candidate that cannot be fitted on its own', 'ValueError', dict(hyper=want, score=float(sc)))
+        elif not (abs(float(sc) - indep) <= SCORE_RTOL * max(1.0, abs(indep))) and not (indep_converged and converged(m)):
+            # one of the two fits stopped at max_iter without reaching tol: its statistics are not those of the optimum
+            res.count('not-converged-not-comparable')
         elif not (abs(float(sc) - indep) <= SCORE_RTOL * max(1.0, abs(indep))):
             viol('candidate score differs from the objective of an independently fitted model with the same hyper-parameters',
                  indep, dict(score=float(sc), hyper=want), finding=F_POISSON if poisson_defect else None)
@@ -630,7 +655,9 @@ def other_data_probe(res, rng, count):
                 except Exception:
                     res.count('other-data-probe:independent-fit-error')
                     continue
-                if not (abs(float(sc) - indep) <= SCORE_RTOL * max(1.0, abs(indep))):
+                if not (abs(float(sc) - indep) <= SCORE_RTOL * max(1.0, abs(indep))) and not (converged(h) and converged(m)):
+                    res.count('other-data-probe:not-converged-not-comparable')
+                elif not (abs(float(sc) - indep) <= SCORE_RTOL * max(1.0, abs(indep))):
                     res.violations.append(dict(
                         what='score of a candidate fitted on other data than the searched model differs from a fresh model fitted on that data',
                         input=dict(inp, lam=lam_m[0]), expected=indep, observed=float(sc), finding=None))
